@@ -1,11 +1,12 @@
 ----------------------------- MODULE PackedIdsGen -----------------------------
 (* Writes the abstract cases of PackedIdsSpace as ndjson (IOEnv.OUT).         *)
-(* One file per family: <OUT>.val, <OUT>.pair, <OUT>.text.                    *)
+(* One file per family: <OUT>.val, <OUT>.pair, <OUT>.big, <OUT>.text.                    *)
 EXTENDS PackedIdsSpace, IOUtils, Json
 CONSTANT Full
 Want(f) == IOEnv.WHAT = "all" \/ IOEnv.WHAT = f      \* "all" in one process, or one family per process
 ASSUME Want("val")  => ndJsonSerialize(IOEnv.OUT \o ".val", SetToSeq(ValCases(Full)))
 ASSUME Want("pair") => ndJsonSerialize(IOEnv.OUT \o ".pair", SetToSeq(PairCases(Full)))
+ASSUME Want("big")  => (\A c \in BigSortCases(Full) : BigOK(c)) /\ ndJsonSerialize(IOEnv.OUT \o ".big", SetToSeq(BigSortCases(Full)))
 ASSUME Want("text") => ndJsonSerialize(IOEnv.OUT \o ".text", SetToSeq(TextCases(Full)))
 VARIABLE dummy
 GInit == dummy = 0
